@@ -118,6 +118,8 @@ def run(ctx):
             v = ev.function_value(xml, cls)
             for u in ev.unknown:
                 ctx.error("%s:%s" % (u[1].file if u[1] else "?", u[2]), "writer construct not interpreted: %s" % u[0])
+            if ev.unknown:
+                continue   # a hole standing for an uninterpreted sub-template says nothing about the markup: no verdict on this writer
             if not isinstance(v, AS):
                 ctx.error(key, "xml does not evaluate to a string")
                 continue
